@@ -189,3 +189,38 @@ func zzC11TwoSessions() {
 
 func ZZ_C11_History()     { zzC11History(3 + zzTier()) }
 func ZZ_C11_TwoSessions() { zzC11TwoSessions() }
+
+// A batch handed to ServeReport may mix usage reports with downlink-data reports (the handler's
+// interface allows it, although neither producer in the tree builds such a batch). Whatever the
+// handler then does with the usage reports - send them or drop the batch - the counter of a URR
+// moves only for Usage Report IEs that are actually emitted: the reports before and after the mixed
+// batch are numbered consecutively with whatever the mixed batch itself put on the wire.
+func zzC11MixedBatch() {
+	w := zzMkSeq()
+	usa := func() report.Report {
+		r := report.USAReport{URRID: 1}
+		r.USARTrigger.Flags = report.USAR_TRIG_VOLTH
+		return r
+	}
+	if nondetBool("one-before") {
+		w.s.ServeReport(&report.SessReport{SEID: 1, Reports: []report.Report{usa()}})
+		w.scan("mixed.before")
+	}
+	dld := report.DLDReport{PDRID: 1, Action: nondetU16("dld-action"), BufPkt: nondetBytes("dld-packet", nondetChoice("dld-len", 2))}
+	var rs []report.Report
+	switch nondetChoice("dld-position", 3) {
+	case 0:
+		rs = []report.Report{dld, usa()}
+	case 1:
+		rs = []report.Report{usa(), dld}
+	case 2:
+		rs = []report.Report{usa(), dld, usa()}
+	}
+	w.s.ServeReport(&report.SessReport{SEID: 1, Reports: rs})
+	w.scan("mixed.batch")
+	w.s.ServeReport(&report.SessReport{SEID: 1, Reports: []report.Report{usa()}})
+	w.scan("mixed.after")
+	zzCover("C11.mixed.done")
+}
+
+func ZZ_C11_MixedBatch() { zzC11MixedBatch() }
